@@ -168,15 +168,39 @@ class Boom(Exception):
     pass
 
 
+def _dot_names(text):
+    import re
+    names = re.findall(r'label="([^"]*)"', text)
+    return [n for n in names if n != "locked"]   # (the root node carries the tree's name)
+
+
 def _entry_name(payload):
     if isinstance(payload, str):
         return payload
     return payload.get("str", payload.get("s", "?"))
 
 
+_variant = threading.local()
+
+
 def markers(names):
-    # distinct names: filtered()/copy(predicate) repeat an accepted node below itself (known finding of C08)
-    return len({n for n in names if n.startswith("w")})
+    """version of the tree that a snapshot with these node names shows.
+    normal writer: every mutation adds one marker node -> version = number of distinct markers
+    (distinct names: filtered()/copy(predicate) repeat an accepted node below itself, a known finding of C08).
+    'split' writer (first mutation empties the tree, second rebuilds it with both markers): base only -> 0,
+    empty -> 1 (uncommitted), base + two markers -> 2, anything else -> -1."""
+    names = set(names)
+    m = len({n for n in names if n.startswith("w")})
+    if not getattr(_variant, "split", False):
+        return m
+    base = all(b in names for b in BASE)
+    if base and m == 0:
+        return 0
+    if not names:
+        return 1
+    if base and m == 2:
+        return 2
+    return -1
 
 
 def run_reader_op(tree, op, sched: Scheduler, tmpdir):
@@ -250,8 +274,7 @@ def run_reader_op(tree, op, sched: Scheduler, tmpdir):
     if op == "to_dotfile":
         fp = io.StringIO()
         tree.to_dotfile(fp, node_mapper=mapper)
-        labels = [ln for ln in fp.getvalue().splitlines() if 'label="w' in ln]
-        return len(labels), calls["n"]
+        return markers(_dot_names(fp.getvalue())), calls["n"]
     if op == "with":
         with tree:
             sched.step("read")
@@ -294,23 +317,26 @@ def run_trace(op, *, schedule=None, nested=True, nested_op="to_dict_list", write
 
     def writer(name, k):
         sched.register(name)
+        _variant.split = rebuild == "split"
         try:
             with tree:
                 sched.step("mut", version["v"] + 1)
                 version["v"] += 1
                 if rebuild:
-                    # the first mutation empties the tree and rebuilds it (every list object of the old tree is dropped)
+                    # the first mutation empties the tree (every list object of the old tree is dropped) ...
                     old = [(n.name, n.data_id, getattr(n, "kind", None)) for n in tree.children]
                     tree.clear()
-                    for nm, did, kd in old:
-                        if typed:
-                            tree.add(nm, kind=kd, data_id=did)
-                        else:
-                            tree.add(nm, data_id=did)
-                if typed:   # every mutation introduces a new kind (the kind list is part of a typed snapshot)
-                    tree.add(f"w{k}a", kind=f"ka{k}", data_id=f"id_w{k}a")
-                else:
-                    tree.add(f"w{k}a", data_id=f"id_w{k}a")
+                if rebuild != "split":
+                    if rebuild:     # ... and rebuilds it at once
+                        for nm, did, kd in old:
+                            if typed:
+                                tree.add(nm, kind=kd, data_id=did)
+                            else:
+                                tree.add(nm, data_id=did)
+                    if typed:   # every mutation introduces a new kind (the kind list is part of a typed snapshot)
+                        tree.add(f"w{k}a", kind=f"ka{k}", data_id=f"id_w{k}a")
+                    else:
+                        tree.add(f"w{k}a", data_id=f"id_w{k}a")
                 if nested:
                     # the owner calls a snapshot operation inside its critical section (re-entrant acquire)
                     if nested_op == "with":
@@ -321,6 +347,10 @@ def run_trace(op, *, schedule=None, nested=True, nested_op="to_dict_list", write
                     rec.log(name, "nsnap", shows)
                 sched.step("mut", version["v"] + 1)
                 version["v"] += 1
+                if rebuild == "split":   # ... or only in the second mutation (the tree is EMPTY in between)
+                    for nm, did, kd in old:
+                        tree.add(nm, data_id=did)
+                    tree.add(f"w{k}a", data_id=f"id_w{k}a")
                 if typed:
                     tree.add(f"w{k}b", kind=f"kb{k}", data_id=f"id_w{k}b")
                 else:
@@ -334,6 +364,7 @@ def run_trace(op, *, schedule=None, nested=True, nested_op="to_dict_list", write
 
     def reader(name):
         sched.register(name)
+        _variant.split = rebuild == "split"
         try:
             sched.step("start")
             try:
@@ -363,7 +394,7 @@ def run_trace(op, *, schedule=None, nested=True, nested_op="to_dict_list", write
             raise MachineryTimeout(f"thread did not finish (op={op}, schedule={schedule})")
     if errors:
         raise errors[0]
-    return {"id": trace_id, "op": ("typed:" if typed else "") + ("rebuild:" if rebuild else "") + "+".join(sorted(set(rops.values()))) + ("/nested:" + nested_op if nested else ""),
+    return {"id": trace_id, "op": ("typed:" if typed else "") + (f"rebuild-{rebuild}:" if rebuild else "") + "+".join(sorted(set(rops.values()))) + ("/nested:" + nested_op if nested else ""),
             "events": rec.events, "forced": schedule is not None}
 
 
@@ -384,7 +415,7 @@ def _owner_snapshot(tree, op, tmpdir):
     if op == "to_dotfile":
         fp = io.StringIO()
         tree.to_dotfile(fp)
-        return len([ln for ln in fp.getvalue().splitlines() if 'label="w' in ln]), 0
+        return markers(_dot_names(fp.getvalue())), 0
     if op == "filtered":
         return markers([n.name for n in tree.filtered(lambda n: True)]), 0
     raise ValueError(op)
